@@ -75,6 +75,7 @@ type appendRec struct {
 	Err     bool
 	Forced  bool
 	Payload int
+	AtUs    int64
 }
 
 type logDeco struct {
@@ -101,7 +102,7 @@ func (l *logDeco) Append(p *packet.Publish) error {
 	} else {
 		err = l.inner.Append(p)
 	}
-	rec := appendRec{Node: l.node, Stamp: atomic.AddInt64(&l.w.stamp, 1), AtMs: l.w.nowMs(), Step: l.w.curStep, Topic: string(p.Topic), Tag: tagOf(p.Payload), Err: err != nil, Forced: forced, Payload: len(p.Payload)}
+	rec := appendRec{Node: l.node, Stamp: atomic.AddInt64(&l.w.stamp, 1), AtMs: l.w.nowMs(), Step: l.w.curStep, Topic: string(p.Topic), Tag: tagOf(p.Payload), Err: err != nil, Forced: forced, Payload: len(p.Payload), AtUs: time.Since(l.w.start).Microseconds()}
 	l.w.mu.Lock()
 	l.w.appends = append(l.w.appends, rec)
 	l.w.mu.Unlock()
@@ -561,6 +562,7 @@ func newWorld(t *testing.T, c *Case, o *Outcome) *world {
 		panic("harness: " + err.Error())
 	}
 	w.dataDir = d
+	atomic.StoreInt64(&simConnSeq, 0)
 	uuid.SetRand(seededReader{rand.New(rand.NewSource(int64(mix(c.Seed, "uuid"))))})
 	// strictly increasing CRDT stamps derived from fake time
 	distributed.VerifSetClock(func() int64 {
@@ -632,6 +634,12 @@ func newWorld(t *testing.T, c *Case, o *Outcome) *world {
 		w.startNode(n, authh)
 	}
 	synctest.Wait()
+	// The brokers' periodic timers (100 ms log poller, 1 s expiry sweep) are anchored at this
+	// instant. Everything the simulator does happens on a grid shifted by a fraction of a
+	// millisecond, so that a simulator event never falls on the same instant as one of those
+	// ticks (the order of two timers due at one instant is the Go runtime's choice).
+	time.Sleep(377 * time.Microsecond)
+	w.start = time.Now()
 	return w
 }
 
@@ -681,12 +689,15 @@ func (w *world) run(hooks profileHooks) {
 		// client connection so that clients react at the simulated instant they would, and at
 		// least every 500 ms to notice broker-internal activity without client traffic
 		requeued := false
-		for now := w.nowMs(); e.at > now; now = w.nowMs() {
-			d := e.at - now
-			if d > 500 {
-				d = 500
+		due := w.start.Add(time.Duration(e.at) * time.Millisecond)
+		for time.Now().Before(due) {
+			// sleep to the exact instant on the simulator's own grid (a wake-up caused by a broker
+			// write happens on the broker's grid; rounding from there would drift onto it)
+			d := time.Until(due)
+			if d > 500*time.Millisecond {
+				d = 500 * time.Millisecond
 			}
-			tm := time.NewTimer(time.Duration(d) * time.Millisecond)
+			tm := time.NewTimer(d)
 			select {
 			case <-tm.C:
 			case <-w.notify:
@@ -1062,6 +1073,9 @@ func (w *world) collect() {
 		res := "ok"
 		if a.Err {
 			res = "ERR"
+		}
+		if os.Getenv("VERIF_DEBUG_US") != "" {
+			res += fmt.Sprintf("@%dus", a.AtUs)
 		}
 		alines = append(alines, fmt.Sprintf("n%d:%s:%s", a.Node, a.Tag, res))
 	}
